@@ -451,9 +451,69 @@ def clause_c(repo, chk):
     chk.require_count("C-fresh", 2)
 
 
+# --------------------------------------------------------------------------- (d)
+def clause_d(repo, chk):
+    """seed-driven: (D-order) constraint terms are read after the parameters were set; (D-safelog) the log
+    inside clip_log is taken of a guarded argument (otherwise the gradient of the unselected branch is NaN)"""
+    from ..mustpass import must_pass
+
+    chk.rule("D-order", "in every FCN / CombineFCN entry point that takes a parameter point x, the Gaussian-constraint value/gradient/Hessian are read on every path after the call that writes x into the model (get_nll / get_nll_grad / get_nll_grad_hessian / get_grad_hessp / get_grad)")
+    chk.rule("D-safelog", "clip_log takes tf.math.log of a tf.where-guarded argument whose condition is the condition of the outer tf.where (the raw argument would give a NaN gradient through the unselected branch at x <= 0)")
+    setters = {"get_nll", "get_nll_grad", "get_nll_grad_hessian", "get_grad_hessp", "get_grad"}
+    n = 0
+    for cname in ("FCN", "CombineFCN"):
+        cls = repo.cls("%s::%s" % (MODEL, cname))
+        for mname in ("__call__", "grad", "nll_grad", "nll_grad_hessian", "grad_hessp"):
+            fn = cls.methods[mname]
+
+            def is_event(node, sc):
+                return any(isinstance(x, ast.Call) and isinstance(x.func, ast.Attribute) and x.func.attr in setters and isinstance(x.func.value, ast.Name) and x.func.value.id == "self" for x in ast.walk(sc))
+
+            def is_sink(node, sc):
+                return any(isinstance(x, ast.Call) and isinstance(x.func, ast.Attribute) and x.func.attr.startswith("get_constrain") for x in ast.walk(sc))
+
+            cfg, n_sinks, bad = must_pass(fn.node, is_event, is_sink)
+            # inside one statement the setter must come first in evaluation order
+            inline_bad = None
+            for node in cfg.nodes:
+                from ..mustpass import scan_of
+
+                sc = scan_of(node)
+                if sc is not None and is_event(node, sc) and is_sink(node, sc):
+                    pos_set = min((x.lineno, x.col_offset) for x in ast.walk(sc) if isinstance(x, ast.Call) and isinstance(x.func, ast.Attribute) and x.func.attr in setters)
+                    pos_con = min((x.lineno, x.col_offset) for x in ast.walk(sc) if isinstance(x, ast.Call) and isinstance(x.func, ast.Attribute) and x.func.attr.startswith("get_constrain"))
+                    if pos_con < pos_set:
+                        inline_bad = node
+            n += 1
+            chk.instance("D-order", "%s.%s: %d constraint reads, all after the parameter-setting call: %s" % (cname, mname, n_sinks, not bad and inline_bad is None))
+            if bad or inline_bad is not None:
+                node = bad[0][0] if bad else inline_bad
+                chk.violation("D-order", fn.key, "stale-constraint", "a Gaussian-constraint term is read (line %s) before the call that writes the requested point into the model: it is evaluated at the previous parameter values, so the returned value/gradient do not belong to x" % node.lineno, file=MODEL, line=node.lineno)
+    if n < 10:
+        raise AnalysisError("fewer than 10 entry points checked for D-order")
+    cl = repo.fn("%s::clip_log" % MODEL)
+    x = cl.params[0]
+    logs = [c for c in walk_local(cl.node) if isinstance(c, ast.Call) and norm_text(c.func).endswith("math.log") or (isinstance(c, ast.Call) and norm_text(c.func) in ("tf.log",))]
+    outer = [r.value for r in walk_local(cl.node) if isinstance(r, ast.Return)]
+    if not logs or not outer or not (isinstance(outer[0], ast.Call) and norm_text(outer[0].func) == "tf.where"):
+        raise AnalysisError("clip_log: tf.math.log / outer tf.where not found")
+    cond_outer = norm_text(outer[0].args[0])
+    defs = single_defs(cl.node)
+    ok = True
+    for lg in logs:
+        arg = lg.args[0]
+        a = expand(arg, defs)
+        guarded = isinstance(a, ast.Call) and norm_text(a.func) == "tf.where" and norm_text(a.args[0]) == cond_outer and norm_text(a.args[1]) == x
+        if not guarded:
+            ok = False
+            chk.violation("D-safelog", cl.key, "raw-log", "tf.math.log is applied to `%s`, not to a tf.where(%s, %s, <positive>) guarded value: where the clipped branch is selected the log branch still contributes 0 * inf = NaN to the gradient" % (norm_text(arg), cond_outer, x), file=MODEL, line=lg.lineno)
+    chk.instance("D-safelog", "clip_log: log of a value guarded by `%s`: %s" % (cond_outer, ok))
+
+
 def run(repo, chk, tier):
     chk.assume("tensor shapes are abstracted: x[:, None] / x[None, :] are identities, products commute (diagonal scalings)")
     clause_a(repo, chk)
     clause_b(repo, chk)
     clause_c(repo, chk)
+    clause_d(repo, chk)
     chk.require_count("B-chain", 4)
